@@ -151,7 +151,7 @@ def run_property(prop, tier="quick", seed=0, jobs=None, rebaseline=False, only=N
     import props as props_mod
     meta = props_mod.PROPS[prop]
     timeout_s = 10.0 if tier == "quick" else 60.0
-    keys = [k for k, c in reg.contracts.items() if prop in props_of(c) and not c.trusted and not k.startswith("model:")]
+    keys = [k for k, c in reg.contracts.items() if prop in props_of(c) and not c.trusted and not c.inline and not k.startswith("model:")]
     if only:
         keys = [k for k in keys if only in k]
     statics = []
